@@ -65,6 +65,11 @@ func fatalPath(c *hlib.Ctx) {
 		c.Note("fatal path not run: %v", err)
 		return
 	}
+	if strings.HasSuffix(self, ".test") {
+		// a `go test` binary would run its tests again in the child, which spawn children again: never re-execute one
+		c.Note("fatal path not run: the executable is a test binary")
+		return
+	}
 	runs := 0
 	for _, mode := range []string{"wait", "poll", "slow", "closing", "closing-poll"} {
 		for i := 0; i < 3; i++ {
@@ -123,7 +128,7 @@ func fatalWhileClosing(c *hlib.Ctx, self, mode string) {
 	before := strings.Count(out.String(), "\"message\":\"before\"")
 	if code != 1 || before != 20 {
 		c.Violate(hlib.Violation{Key: "fatal-loses-messages", Monitor: "fatal-path", Desc: fmt.Sprintf("20 events logged through a diode.Writer (ring 64) over a destination that takes 20 ms per write; a goroutine calls Writer.Close (shutdown) and, once the drain is under way, Logger.Fatal is called: the process must exit 1 only after all 20 events reached the destination; %d did, exit code %d", before, code),
-			Case: map[string]interface{}{"mode": mode, "events_before": 20, "destination_takes_per_write": "20ms", "ring": 64, "order": "20 x Info (returned); go Writer.Close(); wait until 2 events reached the destination; Logger.Fatal"},
+			Case:     map[string]interface{}{"mode": mode, "events_before": 20, "destination_takes_per_write": "20ms", "ring": 64, "order": "20 x Info (returned); go Writer.Close(); wait until 2 events reached the destination; Logger.Fatal"},
 			Observed: map[string]interface{}{"exit": code, "before_events_on_stdout": before, "stdout": out.String(), "stderr": errb.String()}, Expected: "exit 1 with 20 'before' events on stdout"})
 	}
 }
